@@ -31,9 +31,9 @@ func (p *Prog) mayWriteField(fn *ssa.Function, tn, fld string) bool {
 		ws = map[*ssa.Function]bool{}
 		// direct writers
 		var work []*ssa.Function
-		for _, f := range p.RepoFuncs {
+		for _, f := range p.AllFuncs {
 			direct := false
-			eachInstr(f, func(in ssa.Instruction) {
+			eachInstrRaw(f, func(in ssa.Instruction) {
 				if _, is := isFieldStore(in, tn, fld); is {
 					direct = true
 				}
@@ -166,12 +166,12 @@ func (p *Prog) writersExcept(tn, fld string, except ...string) map[*ssa.Function
 	}
 	ws := map[*ssa.Function]bool{}
 	var work []*ssa.Function
-	for _, f := range p.RepoFuncs {
+	for _, f := range p.AllFuncs {
 		if skip[fnName(f)] {
 			continue
 		}
 		direct := false
-		eachInstr(f, func(in ssa.Instruction) {
+		eachInstrRaw(f, func(in ssa.Instruction) {
 			if st, is := isFieldStore(in, tn, fld); is {
 				// initialising a field of an object allocated right here writes no existing object
 				if fa, ok := st.Addr.(*ssa.FieldAddr); ok {
@@ -215,7 +215,7 @@ func freshReceiver(site ssa.CallInstruction) bool {
 		if c := staticCallee(x); c != nil && strings.HasPrefix(c.Name(), "New") && inRepo(c) {
 			// a module constructor: returns a newly allocated object
 			fresh := true
-			eachInstr(c, func(in ssa.Instruction) {
+			eachInstrRaw(c, func(in ssa.Instruction) {
 				if r, ok := in.(*ssa.Return); ok && len(r.Results) > 0 {
 					if _, isAlloc := r.Results[0].(*ssa.Alloc); !isAlloc {
 						fresh = false
